@@ -313,7 +313,8 @@ def evalG (fuel : Nat) (F : GFile) (ρ : GEnv) (w : GWorld) (e : GExpr) : GRes G
       match ty, v with
       | .name n, .struct m _ =>
         -- type assertion `x.(T)` on an interface value
-        if n == m || F.interfaces.contains n || n == "any" then .ok v w
+        -- (succeeds when the dynamic type IS `T`, or `T` is an interface the dynamic type implements)
+        if n == m || n == "any" || F.structImplements m n then .ok v w
         else .fail (.panic "interface conversion") w
       | ty, v =>
         match convert ty v with
